@@ -14,6 +14,7 @@ CONSTANTS
   Vias = {%(vias)s}
   Recvs = {%(recvs)s}
   InitProto <- %(proto)s
+  InitProp <- %(initprop)s
   ProtoOps = %(protoops)s
   Ops = {%(ops)s}
 INVARIANTS OrderOK NoProtoCycle
@@ -39,6 +40,10 @@ CONFIGS = {
     # prototype surgery on three objects
     "proto": dict(objs=["o1", "o2", "o3"], keys=["k"], descs="SimpleDescs", vias=["refl", "obj"], recvs=["o1"],
                   proto="NullProto", protoops="TRUE", ops=["prevent", "integrity"], chain={}),
+    # a key that exists from the start as a non-writable, non-configurable, enumerable data property: the index keys of a String
+    # exotic object (10.4.3: [[DefineOwnProperty]] = IsCompatiblePropertyDescriptor against the character), and ordinary objects as control
+    "fixed": dict(objs=["o1"], keys=["k"], descs="AllDescs", vias=["obj", "refl", "sloppy", "strict"], recvs=["o1"], proto="NullProto",
+                  protoops="FALSE", ops=ALLOPS, chain={}, initprop="FrozenV1"),
     # own-key order over index / string / symbol keys
     "order": dict(objs=["o1"], keys=["i0", "i1", "s", "t", "y", "z"], descs="OneDesc", vias=["refl"], recvs=["o1"],
                   proto="NullProto", protoops="FALSE", ops=["define", "delete", "ownkeys"], chain={}),
@@ -54,6 +59,8 @@ KEYMAPS_NONIDX = ["str", "sym", "big", "neg0", "frac", "uni"]
 
 def variants(cfgname, thorough):
     v = []
+    if cfgname == "fixed":
+        return [("strchar", "idx", "plain"), ("plain", "str", "plain"), ("plain", "idx", "plain"), ("func", "sym", "plain"), ("array", "str", "plain")]
     if cfgname == "cell":
         for k in ORD_ANYKEY:
             for m in KEYMAPS_ALL:
@@ -100,9 +107,12 @@ def run_config(chk, wd, binp, name, thorough, kinds_filter=None, devmap=None, vs
     gwd = os.path.join(wd, name)
     os.makedirs(gwd, exist_ok=True)
     cfgtext = CFG % dict(objs=q(c["objs"]), keys=q(c["keys"]), descs=c["descs"], vias=q(c["vias"]), recvs=q(c["recvs"]),
-                         proto=c["proto"], protoops=c["protoops"], ops=q(c["ops"]))
-    init = {o: {"props": {k: {"k": "none", "v": "-", "w": "-", "g": "-", "s": "-", "e": "-", "c": "-"} for k in c["keys"]},
-                "order": [], "ext": "T", "proto": c["chain"].get(o, "null")} for o in c["objs"]}
+                         proto=c["proto"], protoops=c["protoops"], ops=q(c["ops"]), initprop=c.get("initprop", "None"))
+    p0 = {"k": "none", "v": "-", "w": "-", "g": "-", "s": "-", "e": "-", "c": "-"}
+    if c.get("initprop") == "FrozenV1":
+        p0 = {"k": "data", "v": "v1", "w": "F", "g": "-", "s": "-", "e": "T", "c": "F"}
+    init = {o: {"props": {k: dict(p0) for k in c["keys"]},
+                "order": [] if p0["k"] == "none" else list(c["keys"]), "ext": "T", "proto": c["chain"].get(o, "null")} for o in c["objs"]}
     with phase(chk, "tlc-" + name):
         g, st = edges.build_graph("Obj", cfgtext, gwd, init, obs0=init, timeout=1200)
     chk.add("states", st["states"])
@@ -115,7 +125,7 @@ def run_config(chk, wd, binp, name, thorough, kinds_filter=None, devmap=None, vs
     for (kind, keymap, kind2) in vs:
         pre = os.path.join(gwd, "prelude-%s-%s-%s.js" % (kind, keymap, kind2))
         open(pre, "w").write("var CFG = %s;\n" % json.dumps(dict(objs=c["objs"], keys=c["keys"], proto=c["chain"],
-                                                                  kind=kind, kind2=kind2, keymap=keymap)))
+                                                                  kind=kind, kind2=kind2, keymap=keymap, initprop=c.get("initprop", "None"))))
         ad = pre + "," + os.path.join(HARNESS, "adaptors", "obj.js")
         what = "Obj/%s kind=%s key=%s other=%s" % (name, kind, keymap, kind2)
         share = None
@@ -177,7 +187,7 @@ def run(chk, tier):
     go_build("jsreplay", binp)
     tours = 0
     only = os.environ.get("VERIF_ONLY")
-    for name in ["cell", "chain", "proto", "order"]:
+    for name in ["cell", "chain", "proto", "order", "fixed"]:
         if only and name not in only.split(","):
             continue
         tours += run_config(chk, wd, binp, name, thorough,
@@ -221,7 +231,7 @@ def replay(path):
     c = CONFIGS[m["config"]]
     pre = os.path.join(wd, "prelude.js")
     open(pre, "w").write("var CFG = %s;\n" % json.dumps(dict(objs=c["objs"], keys=c["keys"], proto=c["chain"],
-                                                              kind=m["kind"], kind2=m["kind2"], keymap=m["keymap"])))
+                                                              kind=m["kind"], kind2=m["kind2"], keymap=m["keymap"], initprop=c.get("initprop", "None"))))
     r = subprocess.run([binp, "-replay", path, "-adaptor", pre + "," + os.path.join(HARNESS, "adaptors", "obj.js")],
                        stdout=subprocess.PIPE, text=True)
     got = json.loads(r.stdout)
